@@ -654,11 +654,11 @@ static size_t copy_chars (UCHAR* from, UCHAR* to, size_t count, interactive_t* i
         case TS_SB_IAC:
           if (from[i] == IAC)
             {
+              /* IAC IAC is a quoted IAC char */
+              ip->state = TS_SB;	/* also when the byte itself no longer fits */
               if (ip->sb_pos >= SB_SIZE - 1)	/* keep room for the terminator stored at IAC SE */
                 break;
-              /* IAC IAC is a quoted IAC char */
               ip->sb_buf[ip->sb_pos++] = INT_CHAR(IAC);
-              ip->state = TS_SB;
               break;
             }
           /* SE counts as going back into data mode */
